@@ -308,6 +308,12 @@ func emitVerdict(c *Ctx, b *budget, p *tak.Position, d int, v string) {
 // ---- C05
 
 func genC05(c *Ctx) {
+	// the precise configuration as users obtain it (MinimaxConfig.MakePrecise on every combination of the three options)
+	if c.Shard == 0 {
+		for i := 0; i < 8; i++ {
+			c.Emit(fmt.Sprintf("mkprecise null=%d,red=%d,mc=%d", i&1, i>>1&1, i>>2&1))
+		}
+	}
 	r := c.R
 	c.Timeout = 0
 	// A: one Analyze on a fresh engine, compared field by field with the model
